@@ -50,7 +50,7 @@ def run_stage(work, drive, st, seed, out, model_invs, model_props):
     if st.typ in ("model", "sim"):
         uni = universe_json(drive, st.kind, st.uname, st.size, useed)
         if st.typ == "model":
-            mod = write_mc(work, "m" + tag, uni, emit=True, invariants=model_invs, props=model_props,
+            mod = write_mc(work, "m" + tag, uni, emit=True, invariants=st.kw.get("invs", model_invs), props=model_props,
                            switches=st.kw.get("switches"))
             edges = work.path("edges-%s.ndjson" % tag)
             r = run_model(work, mod, edges, workers=st.kw.get("workers", 4), timeout=st.kw.get("timeout", 3000))
